@@ -271,7 +271,9 @@ theorem rdeps_cases {m x : Node} (h : x ∈ rdeps u cfg d m) :
        (∃ s ∈ localSpecs u d y ++ projSpecs u cfg d y, s.m.srcAttr = m.2 ∧
           ∃ x' ∈ affectees u cfg d s, x = (x'.id, s.m.tgtAttr)) ∨
        (∃ a ∈ cfg.items, ∃ s ∈ projSpecs u cfg d a, s.e.resistAttr = some m.2 ∧ m.2 ≠ 0 ∧
-          (∃ t, s.tg = some t ∧ t.id = y.id) ∧ ∃ x' ∈ affectees u cfg d s, x = (x'.id, s.m.tgtAttr))) := by
+          (∃ t ∈ targetsOf cfg d a s.e,
+            t.id = y.id ∨ (y.kind.ownerModifiable = true ∧ shipOf cfg y.fit = some t.id)) ∧
+          ∃ x' ∈ affectees u cfg d s, x = (x'.id, s.m.tgtAttr))) := by
   unfold rdeps at h
   split at h
   · cases h
@@ -290,12 +292,9 @@ theorem rdeps_cases {m x : Node} (h : x ∈ rdeps u cfg d m) :
       obtain ⟨s, hs, hx⟩ := List.mem_flatMap.1 h
       obtain ⟨hmem, hcond⟩ := List.mem_filter.1 hs
       obtain ⟨x', hx', rfl⟩ := List.mem_map.1 hx
-      simp only [Bool.and_eq_true, beq_iff_eq, bne_iff_ne, ne_eq] at hcond
-      obtain ⟨⟨hr, h0⟩, htg⟩ := hcond
-      refine Or.inr (Or.inr ⟨a, ha, s, hmem, hr, h0, ?_, x', hx', rfl⟩)
-      cases hst : s.tg with
-      | none => rw [hst] at htg; cases htg
-      | some t => rw [hst] at htg; exact ⟨t, rfl, by simpa using htg⟩
+      simp only [Bool.and_eq_true, beq_iff_eq, bne_iff_ne, ne_eq, List.any_eq_true, Bool.or_eq_true] at hcond
+      obtain ⟨⟨hr, h0⟩, t, ht, htg⟩ := hcond
+      exact Or.inr (Or.inr ⟨a, ha, s, hmem, hr, h0, ⟨t, ht, htg⟩, x', hx', rfl⟩)
 
 /-- Ranks grow along `rdeps` between attributes that have metadata. -/
 theorem rdeps_rank (hwf : RankWF u) (hun : UniqueAttrs u) {m x : Node} (hm : HasMeta u m) (hx : HasMeta u x)
